@@ -49,7 +49,11 @@ func (c *CutConn) ReadN() int64   { c.mu.Lock(); defer c.mu.Unlock(); return c.r
 func (c *CutConn) WasCut() bool   { return c.cut.Load() }
 
 // StallReads makes every Read block until the connection is closed (a peer that stops reading).
-func (c *CutConn) StallReads() { c.stall.Store(true) }
+func (c *CutConn) StallReads() {
+	c.stall.Store(true)
+	// kick a Read that is already waiting in the kernel; whatever it returns is discarded (see Read)
+	c.Conn.SetReadDeadline(time.Now())
+}
 
 // StallOnCut: once the armed read threshold is reached, stop reading for d, then cut.
 func (c *CutConn) StallOnCut(d time.Duration) { c.mu.Lock(); c.stallCut = d; c.mu.Unlock() }
@@ -133,6 +137,11 @@ func (c *CutConn) Read(b []byte) (int, error) {
 		return 0, ErrCut
 	}
 	n, err := c.Conn.Read(b[:limit])
+	if c.stall.Load() {
+		// the peer has stopped reading: nothing read from now on is delivered
+		<-c.gone
+		return 0, ErrCut
+	}
 	c.mu.Lock()
 	c.read += int64(n)
 	hit := c.cutRead >= 0 && c.read >= c.cutRead
